@@ -3,12 +3,12 @@ package main
 import (
 	"crypto/sha256"
 	"encoding/hex"
-	"os"
 	"fmt"
 	"go/ast"
 	"go/constant"
 	"go/token"
 	"go/types"
+	"os"
 	"strconv"
 	"strings"
 
@@ -23,10 +23,10 @@ type SpecEnv struct {
 	st      *State // state heap reads refer to
 	old     *State // state old(...) refers to
 	depth   int
-	qvars   []string  // bound SMT variables of enclosing quantifiers (innermost last)
-	loop    *loopInfo // loop whose invariant is being evaluated (for atentry / sameregion)
+	qvars   []string       // bound SMT variables of enclosing quantifiers (innermost last)
+	loop    *loopInfo      // loop whose invariant is being evaluated (for atentry / sameregion)
 	bound   map[string]Val // variables bound by enclosing quantifiers
-	fuel    int       // fuel of heap-dependent recursive function applications (when fuelSet)
+	fuel    int            // fuel of heap-dependent recursive function applications (when fuelSet)
 	fuelSet bool
 	pats    *[]string // pattern candidates of the innermost quantifier
 }
